@@ -23,7 +23,7 @@ def run(ctx):
     ]
     ctx.trusted += ["modelled, not verified: z3/pysmt and the effect analysis of new_eff.py / new_analysis_core.py",
                     SEARCH_ONLY_NOTE]
-    broken = ctx.lean_obligations(["ExoModel.Props.C01"])
+    broken = ctx.lean_obligations(["ExoModel.Props.C01", "ExoModel.Props.C01Subst"])
     recs = sched_run.run_stream(ctx, ["obs_sem"], nvariants=ctx.scale(1, 3),
                                 opts={"depth": ctx.scale(2, 2), "n_inputs": ctx.scale(3, 6),
                                       "depth2_procs": ctx.scale(3, 10), "depth2_attempts": ctx.scale(12, 40)})
